@@ -168,6 +168,9 @@ struct Cfg {
     /// (external_body, no contract), items are left out
     opaque_auto: HashSet<String>,
     method_argc: HashMap<String, HashSet<usize>>,
+    /// module stem -> names called as `<..>::<stem>::name(..)` anywhere in the covered files
+    /// (a function of that module that has no contract yet is auto-included like a same-file helper)
+    cross_calls: HashMap<String, HashSet<String>>,
     iter_renames: HashMap<String, String>,
     asref_map: HashMap<String, String>, // "Path" -> "&Path"
     opaque_fmt_in: HashSet<String>,     // method names whose closure args get opaque format!
@@ -195,10 +198,21 @@ fn leaves_closure(body: &Expr) -> bool {
     v.0
 }
 
+/// I1 applicability: no `return` / `?` (they would leave the caller) and no loops (a loop needs a
+/// contract of its own: such a helper stays a separate, contract-less function)
 fn block_leaves(b: &Block) -> bool {
     struct V(bool);
     impl<'ast> Visit<'ast> for V {
         fn visit_expr_return(&mut self, _r: &'ast ExprReturn) {
+            self.0 = true;
+        }
+        fn visit_expr_loop(&mut self, _r: &'ast ExprLoop) {
+            self.0 = true;
+        }
+        fn visit_expr_while(&mut self, _r: &'ast ExprWhile) {
+            self.0 = true;
+        }
+        fn visit_expr_for_loop(&mut self, _r: &'ast ExprForLoop) {
             self.0 = true;
         }
         fn visit_expr_try(&mut self, _r: &'ast ExprTry) {
@@ -342,6 +356,8 @@ struct InlineInfo {
     ret: Option<String>,
     body: String,
     world: String,
+    /// for an associated function: the impl's type key (call sites are `Self::f(..)` / `Type::f(..)`)
+    owner: Option<String>,
 }
 
 impl<'a> FileCtx<'a> {
@@ -765,6 +781,14 @@ impl<'a, 'b, 'ast> Visit<'ast> for BodyV<'a, 'b> {
             }
         }
         if let Type::ImplTrait(it) = t {
+            // R12 in argument position: `impl AsRef<Path>` -> `&Path`
+            for b in it.bounds.iter() {
+                if let Some(rep) = type_is_asref(b, self.fc.cfg) {
+                    let r = range_of(t);
+                    self.fc.edit(r.0, r.1, rep, "R12.impl_asref");
+                    return;
+                }
+            }
             // R11: impl Iterator<Item = X>  ->  crate::shims::iter::Iter<X>
             for b in it.bounds.iter() {
                 if let TypeParamBound::Trait(tb) = b {
@@ -890,9 +914,16 @@ impl<'a, 'b, 'ast> Visit<'ast> for BodyV<'a, 'b> {
         let awaited = std::mem::replace(&mut self.awaited_call, false);
         // I1: write an auto-included helper out at its call site
         if let Expr::Path(ep) = &*e.func {
-            if ep.path.segments.len() == 1 && ep.qself.is_none() && !self.fc.no_inline {
-                let n = ep.path.segments[0].ident.to_string();
-                if let Some(info) = self.fc.inline_map.get(&n).cloned() {
+            let seglen = ep.path.segments.len();
+            if (seglen == 1 || seglen == 2) && ep.qself.is_none() && !self.fc.no_inline {
+                let n = ep.path.segments[seglen - 1].ident.to_string();
+                let found = if seglen == 1 {
+                    self.fc.inline_map.get(&n).cloned()
+                } else {
+                    let first = ep.path.segments[0].ident.to_string();
+                    self.fc.inline_map.get(&format!("::{n}")).cloned().filter(|i| first == "Self" || i.owner.as_deref() == Some(first.as_str()))
+                };
+                if let Some(info) = found {
                     if (info.world == "none" || info.world == self.world) && info.params.len() == e.args.len() && !self.nested_units.contains_key(&format!("{}/{}", self.outer_name, n)) {
                         let whole = range_of(e);
                         let mut lets = String::new();
@@ -968,7 +999,7 @@ impl<'a, 'b, 'ast> Visit<'ast> for BodyV<'a, 'b> {
             let mode = k2
                 .as_ref()
                 .and_then(|k| self.fc.cfg.eff_path.get(k))
-                .or_else(|| if k2.is_none() { self.fc.extra_eff.get(&k1).or_else(|| self.fc.cfg.eff_path.get(&k1)) } else { self.fc.cfg.eff_path.get(&format!("*::{k1}")).or_else(|| self.fc.cfg.eff_path.get(&k1)) })
+                .or_else(|| if k2.is_none() { self.fc.extra_eff.get(&k1).or_else(|| self.fc.cfg.eff_path.get(&k1)) } else { self.fc.cfg.eff_path.get(&format!("*::{k1}")).or_else(|| self.fc.cfg.eff_path.get(&k1)).or_else(|| self.fc.extra_eff.get(&format!("::{k1}"))) })
                 .cloned();
             // nested fn call rename (hoisted inner functions)
             if k2.is_none() {
@@ -1500,7 +1531,9 @@ fn type_is_asref(b: &TypeParamBound, cfg: &Cfg) -> Option<String> {
             if let PathArguments::AngleBracketed(ab) = &last.arguments {
                 if let Some(GenericArgument::Type(t)) = ab.args.first() {
                     let s: String = t.to_token_stream().to_string().replace(' ', "");
-                    return cfg.asref_map.get(&s).cloned();
+                    // `std::path::Path` and `Path` alike
+                    let last_seg = s.rsplit("::").next().unwrap_or("").to_string();
+                    return cfg.asref_map.get(&s).or_else(|| cfg.asref_map.get(&last_seg)).cloned();
                 }
             }
         }
@@ -1912,6 +1945,15 @@ impl<'o, 'ast> Visit<'ast> for MethodScan<'o> {
         self.out.insert(e.method.to_string());
         visit::visit_expr_method_call(self, e);
     }
+    fn visit_expr_call(&mut self, e: &'ast ExprCall) {
+        // associated functions called as `Self::name(..)` / `Type::name(..)`
+        if let Expr::Path(ep) = &*e.func {
+            if ep.path.segments.len() == 2 {
+                self.out.insert(format!("{}::{}", ep.path.segments[0].ident, ep.path.segments[1].ident));
+            }
+        }
+        visit::visit_expr_call(self, e);
+    }
     fn visit_macro(&mut self, m: &'ast Macro) {
         if let Ok(args) = m.parse_body_with(Punctuated::<Expr, Token![,]>::parse_terminated) {
             for a in args.iter() {
@@ -2163,9 +2205,25 @@ fn main() {
     };
     let src_root = cfgv["src"].as_str().unwrap().to_string();
     let mut method_argc: HashMap<String, HashSet<usize>> = HashMap::new();
+    let mut cross_calls: HashMap<String, HashSet<String>> = HashMap::new();
+    struct CrossScan<'o> {
+        out: &'o mut HashMap<String, HashSet<String>>,
+    }
+    impl<'o, 'ast> Visit<'ast> for CrossScan<'o> {
+        fn visit_expr_call(&mut self, e: &'ast ExprCall) {
+            if let Expr::Path(ep) = &*e.func {
+                let n = ep.path.segments.len();
+                if n >= 2 {
+                    self.out.entry(ep.path.segments[n - 2].ident.to_string()).or_default().insert(ep.path.segments[n - 1].ident.to_string());
+                }
+            }
+            visit::visit_expr_call(self, e);
+        }
+    }
     for (fname, _) in cfgv["files"].as_object().unwrap() {
         if let Ok(src) = std::fs::read_to_string(format!("{}/{}", src_root, fname)) {
             if let Ok(file) = syn::parse_file(&src) {
+                CrossScan { out: &mut cross_calls }.visit_file(&file);
                 for item in &file.items {
                     if let Item::Impl(im) = item {
                         for ii in &im.items {
@@ -2185,6 +2243,7 @@ fn main() {
         opaque_auto: cfgv.get("opaque_auto").and_then(|x| x.as_array()).map(|a| a.iter().map(|x| x.as_str().unwrap().to_string()).collect()).unwrap_or_default(),
         eff_method_derived: cfgv.get("effects_method_derived").and_then(|x| x.as_array()).map(|a| a.iter().map(|x| x.as_str().unwrap().to_string()).collect()).unwrap_or_default(),
         method_argc,
+        cross_calls,
         roots: cfgv["roots"].as_array().unwrap().iter().map(|x| x.as_str().unwrap().to_string()).collect(),
         macro_map: getmap("macro_map"),
         eff_path: getmap("effects_path"),
@@ -2291,6 +2350,16 @@ fn main() {
             }
             // identifiers referenced from the listed units
             let mut seen: HashSet<String> = HashSet::new();
+            // ... and functions of this module that other covered files call by path
+            let stem = fname.rsplit('/').next().unwrap_or("").trim_end_matches(".rs").to_string();
+            let extra_defined: HashSet<String> = fcfg.get("extra_fn_names").and_then(|x| x.as_array()).map(|a| a.iter().map(|x| x.as_str().unwrap_or("").to_string()).collect()).unwrap_or_default();
+            if let Some(names) = cfg.cross_calls.get(&stem) {
+                for n in names {
+                    if top_fns.contains_key(n) && !extra_defined.contains(n) {
+                        seen.insert(n.clone());
+                    }
+                }
+            }
             for item in &file.items {
                 match item {
                     Item::Fn(f) => {
@@ -2397,7 +2466,8 @@ fn main() {
                             let n = m.sig.ident.to_string();
                             let at = format!("impl:{}/{}", key, n);
                             let has_self = matches!(m.sig.inputs.first(), Some(FnArg::Receiver(_)));
-                            if has_self && called.contains(&n) && !units.contains_key(&at) && cfg.env.attrs_on(&m.attrs).unwrap_or(false)
+                            let assoc_called = !has_self && (called.contains(&format!("Self::{n}")) || called.contains(&format!("{}::{n}", self_ty_key(&im.self_ty))));
+                            if ((has_self && called.contains(&n)) || assoc_called) && !units.contains_key(&at) && cfg.env.attrs_on(&m.attrs).unwrap_or(false)
                                 && !cfg.eff_method.contains_key(&format!(".{n}")) {
                                 let mut sc = EffScan { cfg: &cfg, auto_modes: &modes, mode: 0 };
                                 sc.visit_block(&m.block);
@@ -2406,7 +2476,11 @@ fn main() {
                                 u.id = format!("auto:{}:{}::{}", fname, key, n);
                                 u.world = md.to_string();
                                 u.drop_body = cfg.opaque_auto.contains(&u.id);
-                                extra_eff.insert(format!(".{n}"), md.to_string());
+                                if has_self {
+                                    extra_eff.insert(format!(".{n}"), md.to_string());
+                                } else {
+                                    extra_eff.insert(format!("::{n}"), md.to_string());
+                                }
                                 units.insert(at, u);
                                 auto_names.push(format!("{key}::{n}"));
                             }
@@ -2465,7 +2539,8 @@ fn main() {
         // (argument evaluation order and by-value passing as for a call) - so that extracting a
         // helper out of a verified function does not cost the proof of its caller.  The helper
         // itself is still emitted and verified on its own.
-        let mut preprocessed: HashSet<String> = HashSet::new();
+        let mut inlined_helpers: Vec<String> = vec![];
+        let mut inline_ats: Vec<String> = vec![];
         for item in &file.items {
             if let Item::Fn(f) = item {
                 let name = f.sig.ident.to_string();
@@ -2486,35 +2561,93 @@ fn main() {
                 if !simple_params || !f.sig.generics.params.is_empty() || f.sig.asyncness.is_some() || block_leaves(&f.block) || ids.contains(&name) {
                     continue;
                 }
-                found_units.insert(at.clone());
-                fc.no_inline = true;
-                process_fn(&mut fc, &f.attrs, &f.vis, &f.sig, Some(&f.block), &u, &nested, &name, false);
-                fc.no_inline = false;
-                make_pub(&mut fc, &f.vis, range_of(&f.sig).0);
-                let r = range_of(item);
-                segs.push((r.0, r.1, "fn".into(), u.id.clone()));
-                preprocessed.insert(name.clone());
+                let mut scratch = FileCtx { cfg: &cfg, src: &src, edits: vec![], rule_counts: BTreeMap::new(), errors: vec![], warnings: vec![], degraded: vec![], extra_eff: extra_eff.clone(), fname: fname.clone(), ro_violations: vec![], field_types: field_types.clone(), locals_out: BTreeMap::new(), inline_map: HashMap::new(), no_inline: true };
+                process_fn(&mut scratch, &f.attrs, &f.vis, &f.sig, Some(&f.block), &u, &nested, &name, false);
                 let mut errs = vec![];
-                let (body, _) = apply_edits(&src, range_of(&*f.block), &fc.edits, &mut errs);
-                // the vacuity probe belongs to the helper's own copy only
+                let (body, _) = apply_edits(&src, range_of(&*f.block), &scratch.edits, &mut errs);
+                // the vacuity probe belongs to a standalone copy only
                 let body: String = body.lines().filter(|l| !l.contains("// @VACUITY")).collect::<Vec<_>>().join("\n");
+                inlined_helpers.push(u.id.clone());
                 let mut params = vec![];
                 for a in f.sig.inputs.iter() {
                     if let FnArg::Typed(pt) = a {
                         if let Pat::Ident(pi) = &*pt.pat {
-                            let (ty, _) = apply_edits(&src, range_of(&*pt.ty), &fc.edits, &mut errs);
+                            let (ty, _) = apply_edits(&src, range_of(&*pt.ty), &scratch.edits, &mut errs);
+                            // (the ghost world parameter is woven in right after the last type)
+                            let ty = ty.split(", Tracked(w)").next().unwrap_or("").to_string();
                             params.push((pi.ident.to_string(), ty, pi.mutability.is_some()));
                         }
                     }
                 }
                 let ret = match &f.sig.output {
-                    ReturnType::Type(_, t) => Some(apply_edits(&src, range_of(&**t), &fc.edits, &mut errs).0),
+                    ReturnType::Type(_, t) => Some(apply_edits(&src, range_of(&**t), &scratch.edits, &mut errs).0),
                     ReturnType::Default => None,
                 };
-                fc.inline_map.insert(name.clone(), InlineInfo { params, ret, body, world: u.world.clone() });
+                fc.inline_map.insert(name.clone(), InlineInfo { params, ret, body, world: u.world.clone(), owner: None });
+                inline_ats.push(at.clone());
             }
         }
 
+        // I1 for associated functions without a receiver (`Self::helper(..)`): rendered by a dry run
+        // into a scratch context (their real copy is emitted with their impl block below)
+        for item in &file.items {
+            if let Item::Impl(im) = item {
+                if im.trait_.is_some() || !cfg.env.attrs_on(&im.attrs).unwrap_or(false) {
+                    continue;
+                }
+                let key = impl_key(im);
+                for ii in &im.items {
+                    if let ImplItem::Fn(m) = ii {
+                        let name = m.sig.ident.to_string();
+                        let at = format!("impl:{}/{}", key, name);
+                        let u = match units.get(&at) {
+                            Some(u) if u.id.starts_with("auto:") && !u.drop_body => u.clone(),
+                            _ => continue,
+                        };
+                        let simple_params = m.sig.inputs.iter().all(|a| match a {
+                            FnArg::Typed(pt) => matches!(&*pt.pat, Pat::Ident(pi) if pi.by_ref.is_none() && pi.subpat.is_none()),
+                            _ => false,
+                        });
+                        let mut ids = HashSet::new();
+                        MethodScan { out: &mut ids }.visit_block(&m.block);
+                        if !simple_params || !m.sig.generics.params.is_empty() || m.sig.asyncness.is_some() || block_leaves(&m.block)
+                            || ids.contains(&format!("Self::{name}")) || !cfg.env.attrs_on(&m.attrs).unwrap_or(false) || fc.inline_map.contains_key(&format!("::{name}")) {
+                            continue;
+                        }
+                        let mut scratch = FileCtx { cfg: &cfg, src: &src, edits: vec![], rule_counts: BTreeMap::new(), errors: vec![], warnings: vec![], degraded: vec![], extra_eff: extra_eff.clone(), fname: fname.clone(), ro_violations: vec![], field_types: field_types.clone(), locals_out: BTreeMap::new(), inline_map: HashMap::new(), no_inline: true };
+                        process_fn(&mut scratch, &m.attrs, &m.vis, &m.sig, Some(&m.block), &u, &nested, &name, false);
+                        let mut errs = vec![];
+                        let (body, _) = apply_edits(&src, range_of(&m.block), &scratch.edits, &mut errs);
+                        let body: String = body.lines().filter(|l| !l.contains("// @VACUITY")).collect::<Vec<_>>().join("\n");
+                        let mut params = vec![];
+                        for a in m.sig.inputs.iter() {
+                            if let FnArg::Typed(pt) = a {
+                                if let Pat::Ident(pi) = &*pt.pat {
+                                    let (ty, _) = apply_edits(&src, range_of(&*pt.ty), &scratch.edits, &mut errs);
+                                    let ty = ty.split(", Tracked(w)").next().unwrap_or("").to_string();
+                                    params.push((pi.ident.to_string(), ty, pi.mutability.is_some()));
+                                }
+                            }
+                        }
+                        let ret = match &m.sig.output {
+                            ReturnType::Type(_, t) => Some(apply_edits(&src, range_of(&**t), &scratch.edits, &mut errs).0),
+                            ReturnType::Default => None,
+                        };
+                        fc.inline_map.insert(format!("::{name}"), InlineInfo { params, ret, body, world: u.world.clone(), owner: Some(self_ty_key(&im.self_ty)) });
+                        inlined_helpers.push(u.id.clone());
+                        inline_ats.push(at.clone());
+                    }
+                }
+            }
+        }
+
+        // an inlined helper's standalone copy keeps its signature only (it is verified in the
+        // context of each caller; a call that is not written out knows nothing about its result)
+        for at in &inline_ats {
+            if let Some(u) = units.get_mut(at) {
+                u.drop_body = true;
+            }
+        }
         for item in &file.items {
             let (attrs, name): (&[Attribute], String) = match item {
                 Item::Use(i) => (&i.attrs, "use".into()),
@@ -2699,9 +2832,6 @@ fn main() {
                 }
                 Item::Fn(f) => {
                     let at = format!("fn:{}", name);
-                    if preprocessed.contains(&name) {
-                        continue;
-                    }
                     if let Some(u) = units.get(&at).cloned() {
                         found_units.insert(at.clone());
                         // which nested units were found
@@ -2872,7 +3002,7 @@ fn main() {
         out_files.insert(
             fname.clone(),
             json!({ "segments": rendered, "dropped": dropped, "warnings": fc.warnings, "degraded": fc.degraded,
-                    "auto_units": auto_names, "auto_items": auto_items, "ro_violations": fc.ro_violations, "missing_units": missing_units, "lifted": lift_log, "lift_missing": lift_missing, "locals": fc.locals_out }),
+                    "auto_units": auto_names, "auto_items": auto_items, "ro_violations": fc.ro_violations, "missing_units": missing_units, "lifted": lift_log, "lift_missing": lift_missing, "locals": fc.locals_out, "inlined_helpers": inlined_helpers }),
         );
     }
     let out = json!({ "files": out_files, "errors": all_errors, "rule_counts": total_rules });
